@@ -115,6 +115,8 @@ type Day struct {
 	// Head, when set, is the heading text to render instead of Date in the log's layout
 	// (layouts with a time of day or a zone offset)
 	Head string
+	// NoColon: the heading line is written without the (optional) colon
+	NoColon bool
 }
 
 // Log is an ordered list of days (file order; dates may repeat and be unsorted).
@@ -777,7 +779,22 @@ func RenderLog(l Log, layout string, s *Style) string {
 		if d.Head != "" {
 			head = d.Head
 		}
+		start := sb.Len()
 		s.record(&sb, head, d.Notes, d.Ents)
+		if d.NoColon {
+			// the colon after a heading is optional for the parser: drop the one that follows this heading
+			text := sb.String()
+			if k := strings.Index(text[start:], head); k >= 0 {
+				at := start + k + len(head)
+				if at < len(text) && text[at] == '"' {
+					at++
+				}
+				if at < len(text) && text[at] == ':' {
+					sb.Reset()
+					sb.WriteString(text[:at] + text[at+1:])
+				}
+			}
+		}
 	}
 	s.filler(&sb)
 	return s.finish(&sb)
